@@ -23,6 +23,8 @@ def build_pe(
     machine=None,
     dos_fill=0x00,
     file_align=1,
+    bss=(),
+    table_order=None,
 ):
     """Returns (image bytes, info dict). ``sections`` = sequence of (name, raw bytes). export_stamp None => no export dir."""
     if magic_mz is None:
@@ -43,7 +45,15 @@ def build_pe(
     va = 0x1000
     sec_hdrs = []
     sec_info = []
-    for name, raw in sections:
+    sections = list(sections)
+    for i, (name, raw) in enumerate(sections):
+        if i in bss:
+            # uninitialised (.bss-like) section: virtual size only, no raw data in the file
+            sections[i] = (name, b"")
+            sec_hdrs.append(struct.pack("<8sIIIIIIHHI", name.encode()[:8], 0x200, va, 0, 0, 0, 0, 0, 0, 0xC0000080))
+            sec_info.append(dict(name=name, va=va, vsize=0x200, raw_ptr=0, raw_size=0))
+            va += 0x1000
+            continue
         vsize = max(len(raw), 1)
         sec_hdrs.append(
             struct.pack("<8sIIIIIIHHI", name.encode()[:8], vsize, va, len(raw), raw_ptr, 0, 0, 0, 0, 0x60000020)
@@ -51,6 +61,9 @@ def build_pe(
         sec_info.append(dict(name=name, va=va, vsize=vsize, raw_ptr=raw_ptr, raw_size=len(raw)))
         raw_ptr += len(raw)
         va += (vsize + 0xFFF) // 0x1000 * 0x1000
+    if table_order is not None:
+        # the section table may list the sections in another order than their raw data lies in the file
+        sec_hdrs = [sec_hdrs[i] for i in table_order]
 
     export_rva = export_dir_size = 0
     sections = [(n, bytearray(r)) for n, r in sections]
